@@ -9,6 +9,7 @@ import inspect
 import numpy as np
 
 from tvmon import core, gen, ref
+from tvmon import docsig
 from tvmon.ref import EPS
 from tvmon.interpose import installed
 
@@ -159,8 +160,14 @@ def judge_svd(ctx, A, Z, e, r):
         ctx.nontrivial([n, rout, int(np.floor(np.log10(e / nrm) * 4))])
 
 
+def _doc_skeleton(A, e=1.E-10, r=1.E+12, hermitian=False, rel=False,
+                  give_to='m'):
+    """The DOCUMENTED signature of matrix_skeleton: positional calls are bound
+    by it, not by whatever the implementation currently declares."""
+
+
 def make_skeleton(orig):
-    sig = inspect.signature(orig)
+    sig = docsig.sig('matrix_skeleton')
 
     def matrix_skeleton(*args, **kw):
         ba = sig.bind(*args, **kw)
@@ -178,7 +185,7 @@ def make_skeleton(orig):
 
 
 def make_msvd(orig):
-    sig = inspect.signature(orig)
+    sig = docsig.sig('matrix_svd')
 
     def matrix_svd(*args, **kw):
         ba = sig.bind(*args, **kw)
@@ -195,7 +202,7 @@ def make_msvd(orig):
 
 
 def make_svd(orig):
-    sig = inspect.signature(orig)
+    sig = docsig.sig('svd')
 
     def svd(*args, **kw):
         ba = sig.bind(*args, **kw)
@@ -319,8 +326,12 @@ def run_matrix(case, ctx):
         for give_to in ('l', 'm', 'r'):
             rel = bool(rng.random() < 0.5)
             e = float(t / sv[0]) if rel else float(t)
-            if give_to == 'm' and rng.random() < 0.5:
+            u = rng.random()
+            if give_to == 'm' and u < 0.4:
                 teneva.matrix_skeleton(A, e, cap, rel=rel)
+            elif u < 0.7:
+                # all options by position, as documented
+                teneva.matrix_skeleton(A, e, cap, False, rel, give_to)
             else:
                 teneva.matrix_skeleton(A, e, cap, rel=rel, give_to=give_to)
         teneva.matrix_svd(A, float(t), cap)
